@@ -30,7 +30,11 @@ def make_battle(game, version, seed, rich, ids=None):
     if 'ok' not in loaded:
         return None, None, 'definitions do not load: %s' % loaded.get('exc', loaded.get('err'))
     rng = random.Random('battle-%s-%s-%s' % (game, version, seed))
-    b, exp = battle.build(rng, game, version, loaded['ok'], rich=rich, ids=ids)
+    battle.FORCE_END = str(seed).endswith('-1')
+    try:
+        b, exp = battle.build(rng, game, version, loaded['ok'], rich=rich, ids=ids)
+    finally:
+        battle.FORCE_END = False
     return b, exp, None
 
 
